@@ -177,16 +177,21 @@ def judge(ctx, c, res, model_lines):
     # --- K: the exact model on the dumped hierarchy: whole cycle for tiny hierarchies, stage-wise (every level recomputed
     #        from the library's own level inputs and coarse correction) for small ones
     scr = dict(cc.last_scr)
-    if dom and n <= 7 and L <= 2:
+    # exact rationals: a chain of d dependent divisions by 53-bit numbers costs ~d^2; keep the model run cheap
+    passes = {0: 0, 1: 1, 2: 2}[c["opts"]["relax"]]
+    depth = max([c["opts"]["sweeps"] * max(1, passes * lev.n) for lev in levels[1:-1]] + [0])
+    if dom and n <= 7 and L <= 2 and ctx.k_budget["cyc"] > 0:
+        ctx.k_budget["cyc"] -= 1
         calls = [(k, o) for k, o in enumerate(c["hist"]) if o[0] in ("C", "CD")][:3]
         toks = [cid + "w", "cyc"] + cc.hier_tokens(levels, c["opts"]["relax"], c["opts"]["omega"], c["opts"]["sweeps"]) + [str(len(calls))]
         for k, o in calls: toks += cc.vec_toks(c["vecs"][o[1]]) + cc.vec_toks(c["vecs"][o[2]])
         model_lines.append(dict(kind="cyc", cid=cid + "w", mline=" ".join(toks), calls=calls, outs=outs, sig0=sig0, line=c["line"]))
-    if dom and n <= 20 and L <= 4:
+    if dom and n <= 20 and L <= 4 and depth <= 14:
         for k, o in enumerate(c["hist"]):
+            if ctx.k_budget["stg"] <= 0: break
             if o[0] != "CD" or not all(("SX", k, l) in scr and ("SB", k, l) in scr for l in range(1, L)): continue
             if not all(cc.finite(scr[(key, k, l)]) for key in ("SX", "SB") for l in range(1, L)): continue
-            mcid = "%ss%d" % (cid, k)
+            mcid = "%ss%d" % (cid, k); ctx.k_budget["stg"] -= 1
             toks = [mcid, "stg"] + cc.hier_tokens(levels, c["opts"]["relax"], c["opts"]["omega"], c["opts"]["sweeps"])
             toks += cc.vec_toks(c["vecs"][o[1]]) + cc.vec_toks(c["vecs"][o[2]])
             for l in range(1, L):
@@ -239,7 +244,8 @@ def run(ctx):
                 "shifted 1-D / 2-D / graph Laplacians, convection-diffusion, decoupled rows, non-symmetric diagonally dominant single-level systems; "
                 "P in {1,2,3} with default / explicit / empty-rank partitions; histories of 10-20 operations with poisoning; "
                 "non-trivial = hierarchy in the domain of the theorems and non-zero cycle output")
-    per_P = {1: ctx.scale(34, 420), 2: ctx.scale(22, 280), 3: ctx.scale(20, 260)}
+    per_P = {1: ctx.scale(220, 2600), 2: ctx.scale(140, 1700), 3: ctx.scale(140, 1700)}
+    ctx.k_budget = {"cyc": ctx.scale(14, 160), "stg": ctx.scale(54, 640)}
     if ctx.replay:
         cases = [replay_case(l) for l in ctx.replay]
     else:
